@@ -266,6 +266,8 @@ func main() {
 					nseeds++
 				}
 			}
+			// one-shot scripts first (if the time slice runs out, every seed has at least been decoded whole)
+			sort.SliceStable(scripts, func(i, j int) bool { return len(scripts[i].ins) == 1 && len(scripts[j].ins) != 1 })
 			setDeadline(slice(endChunk, len(cpk)-pi))
 			setPkg(engA, pk, defaultConfig(pk.kind))
 			const per = 48
